@@ -350,6 +350,7 @@ inductive Arg where
   | bool (b : Bool)
   | arr (as : List Arg)
   | hash (es : List (Arg × Arg))
+  | undef
   deriving Repr, Inhabited
 
 /-- `NewIntegerType`: `min > max` is an illegal-arguments error -/
@@ -817,6 +818,7 @@ def resolveArg (env : Env) : Expr → Option Arg
   | .str s => some (.str s)
   | .regexp s => some (.rx s)
   | .bool b => some (.bool b)
+  | .undef => some .undef
   | .arr es => (resolveArgs env es).map .arr
   | .hash es => (resolveEntries env es).map .hash
   | _ => none
